@@ -56,7 +56,7 @@ def check_c19(tier):
     for c in runs[:2] + runs[-1:]:
         rep.sample({"ser": c["ser"], "k": c["k"], "mode": c["mode"], "dest": c["dest"], "reterr": c["reterr"], "accepted": len(c["accepted"]), "writes": c["writes"][:6]})
     lines = [json.loads(l) for l in open(p).readlines()[:50]]
-    good = [c for c in lines if c["kind"] == "run" and c["reterr"]][0]
+    good = [c for c in lines if c["case"] not in rep.rejected_ids and c["kind"] == "run" and c["reterr"]][0]
     b1 = json.loads(json.dumps(good)); b1["case"] = "neg1"; b1["reterr"] = False
     b2 = json.loads(json.dumps(good)); b2["case"] = "neg2"; b2["count"] = len(b2["accepted"]) + 1
     np_ = os.path.join(wd, "neg.ndjson")
